@@ -1,8 +1,326 @@
 package main
 
-type mconnCase struct {
-	Name string `json:"name"`
+// Part (b'): conformance subset.  Two real, started MConnections over
+// net.Pipe + real SecretConnections; the send/recv routines, the priority rule,
+// the flush timer and the bufio layering all run for real.  Real goroutines and
+// timers, therefore: progress-based (a scenario ends when a sentinel message
+// sent last on every channel has arrived, or the receiver reported an error),
+// a deadline yields "inconclusive" (never a violation), and a violation
+// candidate is only reported if it reproduces 5 times out of 5.
+
+import (
+	"bytes"
+	"fmt"
+	"net"
+	"reflect"
+	"sync"
+	"sync/atomic"
+	"time"
+
+	"verif/core"
+
+	"github.com/spf13/viper"
+
+	crypto "github.com/dappledger/AnnChain/gemmill/go-crypto"
+	"github.com/dappledger/AnnChain/gemmill/p2p"
+)
+
+type mconnSend struct {
+	Ch   int `json:"ch"`
+	Size int `json:"size"`
 }
 
-func (c *ctx) runMConnSubset() map[string]interface{} { return map[string]interface{}{"scenarios": 0} }
-func (c *ctx) runMConnCase(k kase, replay bool)       {}
+type mconnCase struct {
+	Name       string      `json:"name"`
+	Sends      []mconnSend `json:"sends"`
+	Concurrent bool        `json:"concurrent"` // one sending goroutine per channel instead of one in total
+}
+
+const mconnSentinel = 7
+
+var byteType = reflect.TypeOf(byte(0))
+
+// rawMsg returns a value whose wire encoding is exactly the given bytes (a
+// byte array is written without length prefix).
+func rawMsg(b []byte) interface{} {
+	v := reflect.New(reflect.ArrayOf(len(b), byteType)).Elem()
+	reflect.Copy(v, reflect.ValueOf(b))
+	return v.Interface()
+}
+
+func mconnScenarios() []mconnCase {
+	var out []mconnCase
+	for _, s := range msgSizes {
+		if s > chanRecvMsgCap {
+			continue
+		}
+		out = append(out, mconnCase{Name: fmt.Sprintf("single-%d", s), Sends: []mconnSend{{0, s}}})
+	}
+	n := len(msgSizes) - 1 // without the oversize one
+	for i := 1; i < n; i++ {
+		out = append(out, mconnCase{Name: fmt.Sprintf("pair-%d-%d", msgSizes[i], msgSizes[n-i]), Concurrent: true,
+			Sends: []mconnSend{{0, msgSizes[i]}, {1, msgSizes[n-i]}}})
+	}
+	mixA := []mconnSend{{0, 1024}, {1, 2048}, {0, 1025}, {1, 1}, {0, 1}, {1, 1023}, {0, 4096}, {1, 4096}}
+	mixB := []mconnSend{{0, 4096}, {0, 4096}, {0, 4096}, {1, 1}, {1, 1}, {1, 1}, {0, 1}, {1, 4096}}
+	mixC := []mconnSend{{1, 2048}, {1, 2048}, {1, 2048}, {1, 2048}, {0, 1023}, {0, 1025}, {0, 1024}, {0, 2048}}
+	mixD := []mconnSend{{0, 1}, {0, 0}, {0, 1}, {0, 0}, {0, 1024}, {0, 0}}
+	for i, m := range [][]mconnSend{mixA, mixB, mixC} {
+		out = append(out, mconnCase{Name: fmt.Sprintf("mix%c-serial", 'A'+i), Sends: m})
+		out = append(out, mconnCase{Name: fmt.Sprintf("mix%c-concurrent", 'A'+i), Sends: m, Concurrent: true})
+	}
+	out = append(out, mconnCase{Name: "zero-length-one-channel", Sends: mixD})
+	out = append(out, mconnCase{Name: "zero-length-two-channels", Concurrent: true, Sends: []mconnSend{{0, 0}, {0, 0}, {0, 1}, {0, 0}, {1, 4096}, {1, 4096}, {1, 0}, {1, 4096}}})
+	out = append(out, mconnCase{Name: "zero-length-two-channels-serial", Sends: []mconnSend{{1, 4096}, {0, 0}, {1, 4096}, {0, 0}, {1, 2048}, {0, 1}}})
+	out = append(out, mconnCase{Name: "priority-starvation", Concurrent: true, Sends: []mconnSend{{1, 4096}, {1, 4096}, {1, 4096}, {1, 4096}, {1, 4096}, {1, 4096}, {0, 1}, {0, 1023}}})
+	out = append(out, mconnCase{Name: "boundaries-ch1", Sends: []mconnSend{{1, 1023}, {1, 1024}, {1, 1025}, {1, 2047}, {1, 2048}, {1, 2049}, {1, 4095}, {1, 4096}}})
+	out = append(out, mconnCase{Name: "oversize-first", Sends: []mconnSend{{0, 4097}}})
+	out = append(out, mconnCase{Name: "oversize-after-legit", Sends: []mconnSend{{0, 1024}, {0, 4096}, {0, 4097}}})
+	out = append(out, mconnCase{Name: "oversize-other-channel-busy", Concurrent: true, Sends: []mconnSend{{1, 1024}, {0, 4097}}})
+	out = append(out, mconnCase{Name: "burst-small", Sends: []mconnSend{{0, 1}, {0, 1}, {0, 1}, {0, 1}, {0, 1}, {0, 1}, {1, 1}, {1, 1}, {1, 1}, {1, 1}}})
+	out = append(out, mconnCase{Name: "burst-capacity", Concurrent: true, Sends: []mconnSend{{0, 4096}, {0, 4096}, {0, 4096}, {0, 4096}, {1, 4096}, {1, 4096}, {1, 4096}, {1, 4096}}})
+	return out
+}
+
+type mconnOutcome struct {
+	verdict string // ok | inconclusive | <violation kind>
+	detail  string
+	size    string
+}
+
+var mconnChIDs = []byte{0x20, 0x21}
+
+func mconnDescs() []*p2p.ChannelDescriptor {
+	return []*p2p.ChannelDescriptor{
+		{ID: mconnChIDs[0], Priority: 1, SendQueueCapacity: chanSendQueueCap, RecvMessageCapacity: chanRecvMsgCap},
+		{ID: mconnChIDs[1], Priority: 5, SendQueueCapacity: chanSendQueueCap, RecvMessageCapacity: chanRecvMsgCap},
+	}
+}
+
+// mconnRun executes one scenario once.
+func mconnRun(mc mconnCase, deadline time.Duration) (o mconnOutcome) {
+	start := time.Now()
+	inconclusive := func(why string) mconnOutcome {
+		return mconnOutcome{verdict: "inconclusive", detail: fmt.Sprintf("%s after %.1fs", why, time.Since(start).Seconds())}
+	}
+	c1, c2 := net.Pipe()
+	defer c1.Close()
+	defer c2.Close()
+	var sc [2]*p2p.SecretConnection
+	var herr [2]error
+	var wg sync.WaitGroup
+	keys := []crypto.PrivKey{keyA, keyB}
+	for i, c := range []net.Conn{c1, c2} {
+		wg.Add(1)
+		go func(i int, c net.Conn) {
+			defer wg.Done()
+			c.SetDeadline(time.Now().Add(deadline))
+			sc[i], herr[i] = p2p.MakeSecretConnection(c, keys[i])
+			c.SetDeadline(time.Time{})
+		}(i, c)
+	}
+	wg.Wait()
+	if herr[0] != nil || herr[1] != nil {
+		return inconclusive(fmt.Sprintf("handshake failed (%v / %v)", herr[0], herr[1]))
+	}
+
+	conf := viper.New()
+	p2p.NewSwitch(conf) // only to install the package's configuration defaults (send/recv rate)
+
+	var mu sync.Mutex
+	var received [2][][]byte
+	var recvErr interface{}
+	event := make(chan struct{}, 1024)
+	notify := func() {
+		select {
+		case event <- struct{}{}:
+		default:
+		}
+	}
+	onReceive := func(chID byte, msg []byte) {
+		mu.Lock()
+		idx := int(chID) - int(mconnChIDs[0])
+		if idx >= 0 && idx < 2 {
+			received[idx] = append(received[idx], append([]byte(nil), msg...)) // copy at the callback
+		}
+		mu.Unlock()
+		notify()
+	}
+	onRecvErr := func(r interface{}) {
+		mu.Lock()
+		if recvErr == nil {
+			recvErr = r
+		}
+		mu.Unlock()
+		notify()
+	}
+	var sendErr atomic.Value
+	sender := p2p.NewMConnection(conf, sc[0], mconnDescs(), func(byte, []byte) {}, func(r interface{}) { sendErr.Store(fmt.Sprint(r)); notify() })
+	receiver := p2p.NewMConnection(conf, sc[1], mconnDescs(), onReceive, onRecvErr)
+	sender.Start()
+	receiver.Start()
+	defer sender.Stop()
+	defer receiver.Stop()
+
+	// what was accepted, per channel, in order
+	var accepted [2][][]byte
+	var amu sync.Mutex
+	seq := [2]int{}
+	sendOne := func(ch, size int, salt uint64) {
+		body := pattern(size, salt)
+		ok := sender.Send(mconnChIDs[ch], rawMsg(body))
+		if ok {
+			amu.Lock()
+			accepted[ch] = append(accepted[ch], body)
+			amu.Unlock()
+		}
+	}
+	var swg sync.WaitGroup
+	if mc.Concurrent {
+		for ch := 0; ch < 2; ch++ {
+			swg.Add(1)
+			go func(ch int) {
+				defer swg.Done()
+				k := 0
+				for _, s := range mc.Sends {
+					if s.Ch == ch {
+						sendOne(ch, s.Size, uint64(5000+ch*100+k))
+						k++
+					}
+				}
+				sendOne(ch, mconnSentinel, uint64(9000+ch))
+			}(ch)
+		}
+	} else {
+		swg.Add(1)
+		go func() {
+			defer swg.Done()
+			for _, s := range mc.Sends {
+				sendOne(s.Ch, s.Size, uint64(5000+s.Ch*100+seq[s.Ch]))
+				seq[s.Ch]++
+			}
+			for ch := 0; ch < 2; ch++ {
+				sendOne(ch, mconnSentinel, uint64(9000+ch))
+			}
+		}()
+	}
+	sendersDone := make(chan struct{})
+	go func() { swg.Wait(); close(sendersDone) }()
+
+	sentinel := [2][]byte{pattern(mconnSentinel, 9000), pattern(mconnSentinel, 9001)}
+	timeout := time.After(deadline)
+	finished := false
+	for !finished {
+		select {
+		case <-event:
+		case <-sendersDone:
+			sendersDone = nil
+		case <-timeout:
+			return inconclusive("deadline")
+		}
+		mu.Lock()
+		got := 0
+		for ch := 0; ch < 2; ch++ {
+			if n := len(received[ch]); n > 0 && bytes.Equal(received[ch][n-1], sentinel[ch]) {
+				got++
+			}
+		}
+		if recvErr != nil || got == 2 {
+			finished = sendersDone == nil || recvErr != nil
+		}
+		mu.Unlock()
+	}
+	if sendersDone != nil {
+		// receiver failed: the senders may be blocked in Send (queue full, 10 s timeout); do not wait for them
+		sender.Stop()
+	}
+	mu.Lock()
+	defer mu.Unlock()
+	amu.Lock()
+	defer amu.Unlock()
+
+	// oracle: per channel, what arrived is a prefix of what was accepted, each
+	// message byte-equal; an oversize message never arrives, its channel's
+	// traffic ends there with an error; without error everything arrives.
+	for ch := 0; ch < 2; ch++ {
+		for i, m := range received[ch] {
+			if i >= len(accepted[ch]) {
+				return mconnOutcome{verdict: "extra-message", size: sizeClass(len(m)), detail: fmt.Sprintf("channel %d delivered %d messages, only %d were accepted", ch, len(received[ch]), len(accepted[ch]))}
+			}
+			want := accepted[ch][i]
+			if len(want) > chanRecvMsgCap {
+				return mconnOutcome{verdict: "oversize-delivered", size: "oversize", detail: fmt.Sprintf("channel %d message #%d: a %d-byte message was delivered (%d bytes) through capacity %d", ch, i, len(want), len(m), chanRecvMsgCap)}
+			}
+			if !bytes.Equal(m, want) {
+				kind := "corrupted"
+				if len(m) < len(want) && bytes.HasPrefix(want, m) {
+					kind = "truncated"
+				} else if i+1 < len(accepted[ch]) && bytes.Equal(m, accepted[ch][i+1]) {
+					kind = "message-lost"
+				}
+				return mconnOutcome{verdict: kind, size: sizeClass(len(want)), detail: fmt.Sprintf("channel %d message #%d: delivered %d bytes, accepted message has %d bytes", ch, i, len(m), len(want))}
+			}
+		}
+	}
+	if recvErr != nil {
+		// legitimate only if some accepted-but-undelivered message is oversize
+		for ch := 0; ch < 2; ch++ {
+			for i := len(received[ch]); i < len(accepted[ch]); i++ {
+				if len(accepted[ch][i]) > chanRecvMsgCap {
+					return mconnOutcome{verdict: "ok", detail: "overflow error"}
+				}
+			}
+		}
+		return mconnOutcome{verdict: "error-on-legit-message", size: "any", detail: fmt.Sprintf("receiver stopped with %v although no oversize message was outstanding", core.FirstLine(recvErr))}
+	}
+	for ch := 0; ch < 2; ch++ {
+		if len(received[ch]) != len(accepted[ch]) {
+			return mconnOutcome{verdict: "message-lost", size: "any", detail: fmt.Sprintf("channel %d: %d accepted, %d delivered although the sentinel arrived", ch, len(accepted[ch]), len(received[ch]))}
+		}
+	}
+	return mconnOutcome{verdict: "ok"}
+}
+
+func (c *ctx) runMConnCase(k kase, replay bool) (verdict string) {
+	atomic.AddInt64(&c.evals, 1)
+	mc := *k.MConn
+	var o mconnOutcome
+	p, v, st := core.Try(func() { o = mconnRun(mc, 30*time.Second) })
+	if p {
+		c.report(map[string]string{"part": "mconn", "kind": "panic", "site": core.PanicSite(st)}, k, "panic in harness goroutine: "+core.FirstLine(v))
+		return "panic"
+	}
+	if o.verdict == "ok" || o.verdict == "inconclusive" {
+		return o.verdict
+	}
+	// real goroutines: report only what reproduces 5 times out of 5
+	for i := 0; i < 4; i++ {
+		var o2 mconnOutcome
+		if p, _, _ := core.Try(func() { o2 = mconnRun(mc, 30*time.Second) }); p || o2.verdict != o.verdict {
+			return "inconclusive"
+		}
+	}
+	c.report(map[string]string{"part": "mconn", "kind": o.verdict, "size": o.size}, k, fmt.Sprintf("scenario %s (reproduced 5/5): %s", mc.Name, o.detail))
+	return o.verdict
+}
+
+func (c *ctx) runMConnSubset(skip bool) map[string]interface{} {
+	scen := mconnScenarios()
+	if skip {
+		scen = nil
+	}
+	verdicts := make([]string, len(scen))
+	core.Par(len(scen), func(i int) {
+		verdicts[i] = c.runMConnCase(kase{Part: "mconn", MConn: &scen[i]}, false)
+		c.classes.Add("mconn/" + verdicts[i])
+	})
+	hist := map[string]int{}
+	var inconcl []string
+	for i, v := range verdicts {
+		hist[v]++
+		if v == "inconclusive" {
+			inconcl = append(inconcl, scen[i].Name)
+		}
+	}
+	return map[string]interface{}{"scenarios": len(scen), "verdicts": hist, "inconclusive": inconcl}
+}
